@@ -22,6 +22,11 @@ Theorem C14_interp :
   sem_block W run_line for_words set_var e n b in_loop w.
 Proof. exact run_exp_sem. Qed.
 
+(** The pair tree carries trim(as_str); since d2f4d24 run_exp / run_exp_test_br read
+    trim_cmd(as_str), which is the same unless the trimmed text ends in a backslash. *)
+Theorem C14_trim_cmd : forall s, count_bs (rev (trim s)) = 0%nat -> trim_cmd s = trim s.
+Proof. exact trim_cmd_is_trim. Qed.
+
 (** 2. Parser correctness, full statement (NOT proved in general: carried by the
     correspondence layer L1b on every run; instances below). *)
 Definition C14_parse_full : Prop := forall b, wfp_block b = true -> parse_ok b.
